@@ -320,6 +320,40 @@ def scripted_case(rng):
     return brty, did, nad, miu, "".join(s), resp, payload
 
 
+def recovery_probe_cases(rng, depth):
+    """every PDU kind as the answer to the first `depth` delivered frames - which, depending on the fault
+    script, are the request itself, an ATN or a NAK - for a chained and a non-chained request"""
+    kinds = [("dep", 0, b"\x11"), ("dep", 1, b"\x12"), ("dep", 4, b""), ("dep", 5, b""), ("dep", 8, b""),
+             ("dep", 9, b"\x02"), ("dep", 9, b""), ("dep", 2, b""), ("dep", 15, b"\x01"), ("dsl",), ("rls",), None]
+    scripts = ["dc", "l", "dl", "dcl", "dcc", "ll", "ldl", "c", "dcdc", "ddc"]
+    for chained, tox_first in itertools.product((False, True), (False, True)):
+        for script in scripts:
+            if tox_first:
+                # the request is first answered with a timeout extension request: the outstanding
+                # request during the recovery is then the RTOX PDU, not the (chained) information PDU
+                script = "dd" + script
+            for combo in itertools.product(kinds, repeat=depth):
+                brty = rng.choice(["106A", "212F"])
+                did = rng.choice([None, 3])
+                miu = 3
+                payload = bytes([1, 2, 3, 4, 5]) if chained else bytes([1, 2])
+                resp = []
+                if tox_first:
+                    resp.append(frame(brty, dep_body(False, 9, 0, did, None, b"\x02")))
+                for k in combo:
+                    pni = rng.choice([0, 0, 0, 1])
+                    if k is None:
+                        resp.append(None)
+                    elif k[0] == "dep":
+                        resp.append(frame(brty, dep_body(False, k[1], pni, did, None, k[2])))
+                    else:
+                        resp.append(frame(brty, bytes([0xD5, 9 if k[0] == "dsl" else 11]) + (bytes([did]) if did is not None else b"")))
+                # compliant tail so that accepted recoveries run to completion
+                resp.append(frame(brty, dep_body(False, 8, 0, did, None, b"")))
+                resp.append(frame(brty, dep_body(False, 0, 1 if chained else 0, did, None, b"\x77")))
+                yield brty, did, None, miu, script, resp, payload
+
+
 def canon_pdu(obj, raw_body):
     import nfc.dep as D
     if isinstance(obj, (D.DEP_REQ, D.DEP_RES)):
@@ -517,8 +551,9 @@ def run(ck):
 
     # ---------------------------------------------------------- Initiator against scripted responses (RTOX, NAK, ...)
     slines, sreal = [], []
-    for i in range(6000 if ck.thorough else 1200):
-        brty, did, nad, miu, script, resp, payload = scripted_case(rng)
+    scases = [scripted_case(rng) for i in range(6000 if ck.thorough else 1200)]
+    scases += list(recovery_probe_cases(rng, 3 if ck.thorough else 2))
+    for brty, did, nad, miu, script, resp, payload in scases:
         wire, out = dep_air.run_scripted(brty, did, nad, miu, script, resp, payload, exc_name=exc_name)
         real = "W %s | I %s" % (",".join("%s%s:%s" % e for e in wire) or "-", out)
         slines.append("scr %d %s %s %d %s 100000 %s %s %s" % (
